@@ -375,8 +375,15 @@ void NTT_Goldilocks::extendPol(Goldilocks::Element *output, Goldilocks::Element 
         tmp = buffer;
     }
     // TODO: Pre-compute r
-    if (r == NULL)
+    if (r == NULL || rSize != N)
     {
+        if (r != NULL)
+        {
+            delete[] r;
+            delete[] r_;
+            r = NULL;
+            r_ = NULL;
+        }
         computeR(N);
     }
 
